@@ -167,6 +167,8 @@ enum Apply {
     Address(Vec<u8>),      // last octets
     Range(u8, u8),
     Subnet(u8, u8),        // network last octet, prefix length
+    /// several address sources in ONE policy, written in this key order; the documented set is their union
+    Combo(Vec<Apply>),
 }
 
 impl Apply {
@@ -183,6 +185,7 @@ impl Apply {
             }
             Apply::Range(a, b) => format!("{indent}apply-range: {{start: 192.0.2.{a}, end: 192.0.2.{b}}}\n"),
             Apply::Subnet(n, l) => format!("{indent}apply-subnet: 192.0.2.{n}/{l}\n"),
+            Apply::Combo(v) => v.iter().map(|a| a.yaml(indent)).collect::<Vec<_>>().join(""),
         }
     }
     /// documented address set (last octets); None = the policy adds no addresses
@@ -195,6 +198,17 @@ impl Apply {
                 let size = 1u32 << (32 - *l as u32);
                 // first and last addresses are the network and broadcast addresses and are not applied
                 Some(((*n as u32 + 1)..(*n as u32 + size - 1)).map(|x| x as u8).collect())
+            }
+            Apply::Combo(v) => {
+                let mut out = BTreeSet::new();
+                let mut any = false;
+                for a in v {
+                    if let Some(s) = a.set() {
+                        any = true;
+                        out.extend(s);
+                    }
+                }
+                if any { Some(out) } else { None }
             }
         }
     }
@@ -291,7 +305,14 @@ fn trees(thorough: bool) -> Vec<Node> {
             roots.push(Apply::Range(lo, hi));
         }
     }
-    let child_applies = vec![Apply::Address(vec![5]), Apply::Address(vec![12]), Apply::Range(6, 7), Apply::Subnet(8, 30), Apply::None];
+    // several address sources in one policy, in every key order
+    roots.push(Apply::Combo(vec![Apply::Range(6, 7), Apply::Address(vec![9])]));
+    roots.push(Apply::Combo(vec![Apply::Address(vec![9]), Apply::Range(6, 7)]));
+    roots.push(Apply::Combo(vec![Apply::Subnet(8, 30), Apply::Address(vec![5])]));
+    roots.push(Apply::Combo(vec![Apply::Address(vec![5]), Apply::Subnet(8, 30)]));
+    roots.push(Apply::Combo(vec![Apply::Subnet(8, 30), Apply::Range(4, 5)]));
+    roots.push(Apply::Combo(vec![Apply::Range(4, 5), Apply::Subnet(8, 30)]));
+    let child_applies = vec![Apply::Address(vec![5]), Apply::Address(vec![12]), Apply::Range(6, 7), Apply::Subnet(8, 30), Apply::None, Apply::Combo(vec![Apply::Range(6, 7), Apply::Address(vec![12])])];
     let mut kids: Vec<Node> = vec![];
     for m in [M1, M2] {
         for a in &child_applies {
@@ -499,7 +520,7 @@ pub fn run(tier: &str, replay: Option<Value>) -> ! {
     rep.cov("long_lived_depth", ll_depth);
     rep.cov("evaluations", n1 + n2 + n3);
     rep.cov("distinct_nontrivial", classes.len() as u64);
-    rep.cov("rule", "addresses: every prefix length 16..30 (thorough 10..30) x written with/without host bits x server address {first, last, middle host, outside} x reserved address {none, first, last, second host}: build_default_config's pool vs hosts - server - reserved. drain: policy trees over 192.0.2.0/28 (root: apply-subnet /28 /29 /30, every apply-range in a 6-address window, 1-2 apply-address; 0-2 children matching hardware addresses M1/M2 with address/range/subnet/no pool, a condition-less wrapper, condition-less groups nested in a condition-less group before/after a matching sibling, a depth-3 reservation; overlapping sibling pools skipped) x 3 hardware addresses, each drained with fresh client identifiers through handle_pkt until the no-address error. histories: every history of exactly long_lived_depth operations over {4 configurations with different pools / two interfaces / a reservation, 2 clients, DISCOVER/REQUEST with and without a named address, 2-3 clock steps} on ONE never-reopened Pool, every reply's address judged against the pool configured for that client on that interface at that step. distinct = shape classes");
+    rep.cov("rule", "addresses: every prefix length 16..30 (thorough 10..30) x written with/without host bits x server address {first, last, middle host, outside} x reserved address {none, first, last, second host}: build_default_config's pool vs hosts - server - reserved. drain: policy trees over 192.0.2.0/28 (root: apply-subnet /28 /29 /30, every apply-range in a 6-address window, 1-2 apply-address, two address sources in one policy in both key orders; 0-2 children matching hardware addresses M1/M2 with address/range/subnet/no pool, a condition-less wrapper, condition-less groups nested in a condition-less group before/after a matching sibling, a depth-3 reservation; overlapping sibling pools skipped) x 3 hardware addresses, each drained with fresh client identifiers through handle_pkt until the no-address error. histories: every history of exactly long_lived_depth operations over {4 configurations with different pools / two interfaces / a reservation, 2 clients, DISCOVER/REQUEST with and without a named address, 2-3 clock steps} on ONE never-reopened Pool, every reply's address judged against the pool configured for that client on that interface at that step. distinct = shape classes");
     rep.cov("exhaustive", true);
     rep.cov("parts", json!({"addresses_configs": n1, "policy_trees": trees_n, "drain_requests": n2}));
     rep.cov("classes_sample", json!(classes.iter().take(12).collect::<Vec<_>>()));
